@@ -86,9 +86,10 @@ func NormalizeDomain(s string) string {
 	return strings.ToLower(TrimDot(s))
 }
 
-// TrimDot trims suffix '.'
+// TrimDot trims suffix '.', unless that dot is escaped (is part of the last
+// label).
 func TrimDot(s string) string {
-	if len(s) >= 1 && s[len(s)-1] == '.' {
+	if n := len(s); n >= 1 && s[n-1] == '.' && !isEscaped(s, n-1) {
 		s = s[:len(s)-1]
 	}
 	return s
